@@ -11,7 +11,7 @@ LEVEL = "exploration"
 TECHNIQUE = "Hypothesis-generated scattered sources (1..3 torrents over 1..3 search directories at depths 0..3, decoys, unrelated files, harness-owned enumeration order) rebuilt into a fresh destination; oracle: independent reference verification of the destination, presence/length of every listed file, returned count ; decoys that agree with the real file in some pieces; destination reached through a symlink"
 RULE = ("Cases: 1..3 torrents (tree of non-zero bytes x P x creator incl. v1, v2, hybrid; own default metafiles) whose files are scattered "
         "under their own names over 1..3 search directories at drawn depths, next to unrelated files and decoys (same name, same size, "
-        "every byte different, or agreeing with the real file in its first piece / its tail / all but one byte) with the directory enumeration order forced (sorted / reverse / hashed) so the decoy is met before or "
+        "every byte different, or agreeing with the real file in its first piece / its tail / all but one byte; decoy or intact copy optionally exactly at <search dir>/<torrent name>/<relative path>, where a stale earlier download would sit) with the directory enumeration order forced (sorted / reverse / hashed) so the decoy is met before or "
         "after the real file; metafiles passed as a list or as their directory; fresh destination named absolutely, relatively or as '.'; files whose pieces root is valid UTF-8; plus a grid case with ten same-named 3-byte files and six empty files sharing one piece. Oracle after Assembler(...)."
         "assemble_torrents(): reference verifier reports 100% for every metafile against dest/<name>; every listed path exists with "
         "its exact length (absent empty files are reported in their own bucket); returned count <= number of listed files present in "
